@@ -1,6 +1,7 @@
 package pipeline
 
 import (
+	"context"
 	"errors"
 	"time"
 
@@ -146,4 +147,50 @@ func VerifH_C09_retryPausesWithOtherWorker() {
 	vf.Assert(len(callTimes) == fails+1, "retried-until-success")
 	_ = otherDone
 	vf.Reach("retried-beside-other-worker")
+}
+
+// C09.H1c: the batcher's context is cancelled (the output is being stopped) while a failed batch
+// waits between two attempts: the batch is still neither committed as sent nor dropped silently -
+// it is committed only after a successful send or after it was given up through the error callback.
+func VerifH_C09_retryVsStop() {
+	ctl := &verifOutCtl{sent: map[*Event]bool{}, commits: map[*Event]int{}}
+	failures := 1 + vf.Choose("failures", 3)
+	calls, gaveUp := 0, 0
+	outFn := func(_ *WorkerData, b *Batch) error {
+		calls++
+		if calls <= failures {
+			return errVerifSend
+		}
+		b.ForEach(func(e *Event) { ctl.sent[e] = true })
+		return nil
+	}
+	var failed []*Event
+	rb := NewRetriableBatcher(&BatcherOptions{Controller: ctl, Workers: 1, BatchSizeCount: 1, FlushTimeout: verifFlush},
+		outFn, BackoffOpts{MinRetention: 100 * time.Millisecond, Multiplier: 2, AttemptNum: 5}, func(err error, evs []*Event) {
+			gaveUp++
+			failed = append(failed, evs...)
+		})
+	ctx, cancel := context.WithCancel(context.Background())
+	rb.Start(ctx)
+	ev := &Event{SeqID: 1, Size: 1}
+	rb.Add(ev)
+	// stop arrives during one of the retry pauses
+	time.Sleep(time.Duration(30+100*vf.Choose("stop-after-100ms-steps", 4)) * time.Millisecond)
+	cancel()
+	vf.Quiesce(3000)
+	wasReported := false
+	for _, e := range failed {
+		if e == ev {
+			wasReported = true
+		}
+	}
+	if vf.Param("twin", 0) == 1 {
+		vf.Assert(ctl.commits[ev] == 0, "committed-only-after-send-or-give-up")
+		return
+	}
+	if ctl.commits[ev] > 0 {
+		vf.Assert(ctl.sent[ev] || wasReported, "committed-only-after-send-or-give-up")
+	}
+	vf.Assert(ctl.commits[ev] <= 1, "committed-at-most-once")
+	vf.Reach("stopped-during-retries")
 }
